@@ -37,6 +37,7 @@ let run_lap (args : sexp list) : sexp =
         | L [A "merge"] -> l := lmerge !l
         | L [A "setcov"] -> l := lset_cov !l
         | L [A "cur0"] -> cur := O
+        | L [A "reload"] | L [A "clone"] -> ()      (* serde round trip / clone: the same index (all fields are data) *)
         | L [A "find"; s; e] -> emit (L (A "h" :: List.map sx_iv (ok (lfind !l (num s) (num e)))))
         | L [A "seek"; s; e] ->
           let (hits, c) = ok (lseek !l (num s) (num e) !cur) in
